@@ -464,9 +464,12 @@ class Tol:
             self.pts = 0.0
             self.area = 0.0
         elif self.curved:
+            # the library's own clean() replaces a short curved piece by a lower-degree one when
+            # the squared L2 error is below 1e-9: an absolute deviation of up to ~1e-4 whatever
+            # the size of the shape
             self.num_rel = 1e-5
-            self.pts = 1e-4 * self.d
-            self.area = 1e-5 * self.d * self.d
+            self.pts = max(1e-4 * self.d, 1.5e-4)
+            self.area = max(1e-5 * self.d * self.d, 2e-4 * self.d)
         else:
             self.num_rel = 1e-7
             self.pts = 1e-6 * self.d
